@@ -17,7 +17,7 @@ GUARD = "MEDDLY_VERIF"
 FLAVORS = {
     # name: (compile flags, link flags)
     "plain": (["-O1", "-g0"], []),
-    "asan": (["-O1", "-g", "-fsanitize=address,undefined", "-fno-sanitize=shift-base",
+    "asan": (["-O1", "-g", "-fsanitize=address,undefined", "-fno-sanitize=shift-base,alignment",
               "-fno-omit-frame-pointer"],
              ["-fsanitize=address,undefined"]),
 }
